@@ -419,8 +419,8 @@ fn leak_after_history(cfg: &Cfg) -> Result<(), String> {
 
 pub fn configs(q: bool) -> Vec<Cfg> {
     let mut lib: Vec<(String, Machine)> = vec![];
-    lib.extend(fam::g1(if q { 23 } else { 2 }));
-    lib.extend(fam::g2(if q { 999 } else { 47 }, 12));
+    lib.extend(fam::g1(if q { 23 } else { 7 }));
+    lib.extend(fam::g2(if q { 999 } else { 199 }, 12));
     lib.extend(fam::p_sig());
     lib.extend(fam::p_lim().into_iter().step_by(if q { 2 } else { 1 }));
     lib.extend(fam::p_ctr().into_iter().step_by(if q { 9 } else { 2 }));
@@ -442,11 +442,13 @@ pub fn worker(ctx: &WorkerCtx) -> WorkerOut {
     let cfgs = configs(q);
     let depth = if q { 3 } else { 4 };
     let next = AtomicUsize::new(0);
+    let skipped = AtomicUsize::new(0);
+    let budget_s: u64 = if q { 150 } else { 1500 };
     let crumbs = crate::supervise::global_crumbs();
     let parts: Vec<Vec<(usize, CRes, Option<String>)>> = std::thread::scope(|sc| {
         let hs: Vec<_> = (0..ctx.threads())
             .map(|ti| {
-                let (next, cfgs) = (&next, &cfgs);
+                let (next, cfgs, skipped) = (&next, &cfgs, &skipped);
                 sc.spawn(move || {
                     let mut out = vec![];
                     loop {
@@ -459,6 +461,10 @@ pub fn worker(ctx: &WorkerCtx) -> WorkerOut {
                                 continue;
                             }
                         }
+                        if t0.elapsed().as_secs() > budget_s {
+                            skipped.fetch_add(1, Ordering::Relaxed);
+                            continue;
+                        }
                         if let Some(c) = crumbs {
                             c.set(ti, i as u64);
                         }
@@ -468,7 +474,7 @@ pub fn worker(ctx: &WorkerCtx) -> WorkerOut {
                         let _ = nm;
                         let mut r = explore_c(&cfgs[i], d1, false);
                         if r.violation.is_none() {
-                            let r2 = explore_c(&cfgs[i], if q { 1 } else { 2 }, true);
+                            let r2 = explore_c(&cfgs[i], if q || nm >= 2 { 1 } else { 2 }, true);
                             r.states += r2.states;
                             r.edges += r2.edges;
                             r.actions_compared += r2.actions_compared;
@@ -521,7 +527,8 @@ pub fn worker(ctx: &WorkerCtx) -> WorkerOut {
     }
     let coverage = json!({
         "states": states, "transitions": edges, "traces_validated_against_impl": edges, "samples": samples,
-        "evaluations": edges + start_cases, "distinct_nontrivial": states, "rule": RULE, "exhaustive": ctx.only_unit.is_none(),
+        "evaluations": edges + start_cases, "distinct_nontrivial": states, "rule": RULE, "exhaustive": ctx.only_unit.is_none() && skipped.load(Ordering::Relaxed) == 0,
+        "configurations_skipped_after_the_wall_budget": skipped.load(Ordering::Relaxed), "wall_budget_s": budget_s,
         "configurations": cfgs.len(), "depth_bound": depth, "actions_compared_field_by_field": acts, "start_argument_and_null_pointer_cases": start_cases,
         "wall_s": t0.elapsed().as_secs_f64(),
     });
